@@ -126,7 +126,7 @@ fn base_case(prop: &str, elem: ElemKind, rng: &mut Rng) -> Case {
         shared_bufs: Vec::new(),
         threads: Vec::new(),
         twin: false,
-        budget: 3_000_000,
+        budget: 1 << 40,
     }
 }
 
